@@ -46,6 +46,7 @@ func (cf *constFolder) foldCall(f *ssa.Function, args []interface{}, depth int) 
 		x, ok := env[v]
 		return x, ok
 	}
+	cells := map[*ssa.Alloc]interface{}{}
 	var prev *ssa.BasicBlock
 	b := f.Blocks[0]
 	for {
@@ -94,7 +95,35 @@ func (cf *constFolder) foldCall(f *ssa.Function, args []interface{}, depth int) 
 				default:
 					return nil, false
 				}
+			case *ssa.Alloc:
+				// a local cell (results are spilled to one when the function defers something)
+				cells[x] = nil
+			case *ssa.Store:
+				a, isA := x.Addr.(*ssa.Alloc)
+				if _, known := cells[a]; !isA || !known {
+					return nil, false
+				}
+				v, ok := val(x.Val)
+				if !ok {
+					return nil, false
+				}
+				cells[a] = v
+			case *ssa.MakeClosure:
+				// only as the operand of a defer that does nothing (below)
+			case *ssa.Defer:
+				if !deferDoesNothing(x) {
+					return nil, false
+				}
+			case *ssa.RunDefers:
 			case *ssa.UnOp:
+				if a, isA := x.X.(*ssa.Alloc); isA && x.Op == token.MUL {
+					v, known := cells[a]
+					if !known || v == nil {
+						return nil, false
+					}
+					env[x] = v
+					continue
+				}
 				switch x.Op {
 				case token.NOT:
 					a, ok := val(x.X)
@@ -367,4 +396,29 @@ func tableKeys(w *core.World, f *ssa.Function) []string {
 		}
 	}
 	return out
+}
+
+// deferDoesNothing: the deferred call is a function literal without captured variables whose body is empty.
+func deferDoesNothing(d *ssa.Defer) bool {
+	var g *ssa.Function
+	switch v := d.Call.Value.(type) {
+	case *ssa.MakeClosure:
+		if len(v.Bindings) != 0 {
+			return false
+		}
+		g, _ = v.Fn.(*ssa.Function)
+	case *ssa.Function:
+		g = v
+	}
+	if g == nil || d.Call.IsInvoke() || len(d.Call.Args) != 0 || len(g.Blocks) != 1 {
+		return false
+	}
+	for _, in := range g.Blocks[0].Instrs {
+		switch in.(type) {
+		case *ssa.Return, *ssa.DebugRef:
+		default:
+			return false
+		}
+	}
+	return true
 }
